@@ -7,7 +7,8 @@
     nodetest_table_sound axis_table_sound pred_eval_sound pred_outcome_sound
     substring_not_xpath ne_absent_not_xpath step_matches_eq_xp parser_rejects_outside
     select_eq_xp_step select_eq_xp_chain select_eq_xp_childpath select_eq_xp_union
-    select_eq_xp_nonpositional select_eq_xp_nonpositional_default select_eq_xp_attribute pattern_matches_eq_xp
+    select_eq_xp_nonpositional select_eq_xp_nonpositional_default select_eq_xp_attribute select_eq_xp_attribute_step
+    pattern_matches_eq_xp
     parser_accepts_subset_partial
 -/
 import Genshi.Model.Path
@@ -722,6 +723,38 @@ theorem select_eq_xp_attribute (q : LocPath) (a : Step) (ns : NsMap) (vs : Vars)
   rw [aselM_eq a.test ns _ m hm hat hawf, attrsSelected_single ns (toXVars vs) q a ha]
   rw [RR_attrBase ns vs q hq tag attrs kids,
     reach_loc ns (toXVars vs) q _ ⟨m.loc, .elem tag attrs kids⟩ m rfl]
+
+theorem attrFlag_of_isAttrName (t : NodeTest) (h : t.isAttrName = true) : t.attrFlag = true := by
+  cases t with
+  | principal b => cases b <;> simp_all [NodeTest.isAttrName, NodeTest.attrFlag]
+  | qprincipal b _ => cases b <;> simp_all [NodeTest.isAttrName, NodeTest.attrFlag]
+  | localName b _ => cases b <;> simp_all [NodeTest.isAttrName, NodeTest.attrFlag]
+  | qname b _ _ => cases b <;> simp_all [NodeTest.isAttrName, NodeTest.attrFlag]
+  | _ => simp [NodeTest.isAttrName] at h
+
+/-- `@t` alone, with the strategy `Path.__init__` picks for a single step (SingleStepStrategy):
+    by `single_eq_generic` it reports what GenericStrategy reports, hence the selection of
+    `select_eq_xp_attribute` -/
+theorem select_eq_xp_attribute_step (a : Step) (ns : NsMap) (vs : Vars)
+    (ha : a.axis = .attribute) (hat : a.test.isAttrName = true) (hawf : a.test.wf ns = true)
+    (tag : QName) (attrs : AttrList) (kids : List Node)
+    (hcl : (Node.elem tag attrs kids).clean = true)
+    (hnodes : AllNodes (NodeFor [] ns vs) (.elem tag attrs kids)) :
+    select [[a]] ns vs (Node.elem tag attrs kids).flatten
+      = Ref.xpSelect [[a]] ns (toXVars vs) (.elem tag attrs kids) := by
+  have hrok : (Node.elem tag attrs kids).ok = true := ok_of_clean _ hcl
+  have hok : okList kids = true := by simpa [Node.ok] using hrok
+  have hg := select_eq_xp_attribute [] a ns vs ha hat hawf (Or.inl rfl) tag attrs kids hcl hnodes
+  have ho : strategyOrder = [.single, .simple, .generic] := by decide
+  have hch : chooseStrategy [a] = some .single := by
+    simp [chooseStrategy, ho, List.find?, Strategy.supports, singleSupports]
+  have hflag : a.test.attrFlag = true := attrFlag_of_isAttrName a.test hat
+  simp only [List.nil_append] at hg
+  rw [← hg]
+  unfold select
+  simp only [pathTest, List.map_cons, List.map_nil, mkMatcher, hch, Option.getD_some]
+  rw [selectGo_eq_emitV, selectGo_eq_emitV, runTest_single', runTest_genericL,
+    single_eq_generic_run a false ns vs tag attrs kids hok (fun _ => hflag)]
 
 -- non-vacuity: `.//@k` on <r k="0"><a k="1"><b/></a><c j="2"/></r> yields the two k attributes
 example : select [[⟨.self, .node, []⟩, ⟨.descendantOrSelf, .node, []⟩, ⟨.attribute, .localName true ['k'], []⟩]] [] []
